@@ -1,8 +1,437 @@
 /-
-C20 — property theorems (under construction; see DESIGN.md section 8).
+C20 — client library: `Client.Connect` and the message callbacks of Subscribe.
+
+Property theorems only (helper lemmas: `Proofs/Client*.lean`).  Model:
+`Model/Client.lean`; matching relation: `Spec/Match.lean` (section 4.7), via the
+finished topic-trie theorems of C06.
 -/
-import Mqtt.Model.Client
-import Mqtt.Spec.Client
+import Mqtt.Proofs.ClientRefine
+
+set_option linter.unusedSimpArgs false
 
 namespace Mqtt.Properties.C20
+open Mqtt.Iface.Broker (Pub Packet Bytes)
+open Mqtt.Iface.Client
+open Mqtt.Model.Client
+open Mqtt.Proofs.Client
+open Mqtt.Proofs.Topics (good)
+open Mqtt.Spec.Match (validName validFilter topicMatches)
+open Mqtt.Spec.TopicStore (Sub)
+
+/-! ## (f) Connect -/
+
+/-- `Connect`, for every client state and every answer of the peer: it reports
+success exactly when the answer is a well-formed CONNACK with code 0; it
+reports `refused k` exactly when the answer is a well-formed CONNACK with code
+`k ≠ 0`; it reports another error in all remaining cases (undecodable CONNACK,
+another packet, connection closed).  Exactly one result is reported.  In every
+non-success case the state is unchanged - nothing was started, and a client
+that was not connected still rejects every API call; on success the only
+change is that the client is connected. -/
+theorem C20_connect (c : C) (a : Answer) :
+    step c (.connect a) = connect c a ∧
+    ((connect c a).2 = [.connected] ↔ ∃ sp, a = .connack sp 0) ∧
+    (∀ k, (connect c a).2 = [.refused k] ↔ k ≠ 0 ∧ ∃ sp, a = .connack sp k) ∧
+    ((connect c a).2 = [.connectErr] ↔ ¬ ∃ sp k, a = .connack sp k) ∧
+    ((connect c a).2 = [.connected] → (connect c a).1 = { c with connected := true }) ∧
+    ((connect c a).2 ≠ [.connected] → (connect c a).1 = c ∧
+      (c.connected = false → ∀ call, step (connect c a).1 (.api call) = (c, [.apiErr]))) := by
+  refine ⟨rfl, ?_⟩
+  have hapi : c.connected = false → ∀ call, step c (.api call) = (c, [.apiErr]) := by
+    intro hc call; simp [step, hc]
+  cases a with
+  | connack sp code =>
+    by_cases h0 : code = 0
+    · subst h0
+      simp [connect]
+      omega
+    · have hb : (code == 0) = false := by simpa using h0
+      simp only [connect, hb, Bool.false_eq_true, ↓reduceIte]
+      refine ⟨?_, ?_, ?_, ?_, ?_⟩
+      · simp [h0]
+      · intro k
+        constructor
+        · intro h
+          have : code = k := by simpa using h
+          subst this
+          exact ⟨h0, sp, rfl⟩
+        · rintro ⟨_, sp', h⟩
+          cases h; rfl
+      · simp
+      · simp
+      · intro _
+        exact ⟨by trivial, hapi⟩
+  | badConnack => simp [connect]; exact hapi
+  | other => simp [connect]; exact hapi
+  | close => simp [connect]; exact hapi
+
+/-- every kind of answer, on a fresh client and on a client with requests in flight -/
+example :
+    (step init (.connect (.connack true 0))).2 = [.connected] ∧
+    (step init (.connect (.connack true 0))).1.connected = true ∧
+    (step init (.connect (.connack false 5))).2 = [.refused 5] ∧
+    (step init (.connect .badConnack)).2 = [.connectErr] ∧
+    (step init (.connect .other)).2 = [.connectErr] ∧
+    (step init (.connect .close)).2 = [.connectErr] ∧
+    (runOuts init [.connect (.connack false 4), .api (.ping 1), .connect (.connack false 0), .api (.ping 2)]) =
+      [[.refused 4], [.apiErr], [.connected], [.wrote .pingreq]] := by
+  decide
+
+/-! ## (i) inbound QoS 2: duplicates suppressed, one dispatch, at PUBREL -/
+
+/-- An inbound QoS 2 PUBLISH is never handed to a callback when it arrives: the
+only output is the PUBREC with its identifier.  If an exchange with that
+identifier is already open (a repeated PUBLISH, whatever its DUP flag and
+content) nothing at all changes: no second entry is added. -/
+theorem C20_qos2_publish_not_dispatched (c : C) (hc : c.connected = true) (p : Pub) (hq : p.qos = 2) :
+    (step c (.peer (.publish p))).2 = [.wrote (.pubrec p.pktid)] ∧
+    ((∃ e ∈ c.pub2in, e.id = p.pktid) → (step c (.peer (.publish p))).1 = c) ∧
+    ((¬ ∃ e ∈ c.pub2in, e.id = p.pktid) →
+      (step c (.peer (.publish p))).1 = { c with pub2in := c.pub2in ++ [{ id := p.pktid, pub := some p }] }) := by
+  rw [step_peer c hc]
+  refine ⟨by rw [peer_publish2 c p hq], fun h => by rw [peer_publish2_dup c p hq h], fun h => ?_⟩
+  rw [peer_publish2 c p hq]
+  have : c.pub2in.any (fun e => e.id == p.pktid) = false := by
+    rw [List.any_eq_false]
+    intro e he hid
+    exact h ⟨e, he, by simpa using hid⟩
+  simp [Queue.wait, this]
+
+/-- **QoS 2 duplicates suppressed.**  One whole exchange on a connected client
+with no other inbound QoS 2 exchange open: the PUBLISH, then any number of
+repeated PUBLISHes with the same identifier (any content, any flags), then the
+PUBREL.  Every PUBLISH is answered by a PUBREC and dispatches nothing; the
+PUBREL step dispatches the content of the *first* PUBLISH exactly once
+(`onPublish c p`: the callbacks the topic trie holds for it), then writes the
+PUBCOMP; afterwards the client is in the state it started from. -/
+theorem C20_qos2_duplicates_suppressed (c : C) (hc : c.connected = true) (he : c.pub2in = []) (p : Pub)
+    (hq : p.qos = 2) (dups : List Pub) (hd : ∀ d ∈ dups, d.qos = 2 ∧ d.pktid = p.pktid) :
+    runOuts c (.peer (.publish p) :: dups.map (fun d => Ev.peer (.publish d)) ++ [.peer (.pubrel p.pktid)]) =
+      [.wrote (.pubrec p.pktid)] :: dups.map (fun _ => [Out.wrote (.pubrec p.pktid)]) ++
+        [onPublish c p ++ [.wrote (.pubcomp p.pktid)]] ∧
+    runState c (.peer (.publish p) :: dups.map (fun d => Ev.peer (.publish d)) ++ [.peer (.pubrel p.pktid)]) = c :=
+  qos2_exchange c hc he p hq dups hd
+
+/-- With several exchanges open the receive queue is the FIFO of C13: a PUBREL
+dispatches, in the order the exchanges were opened, the first PUBLISH of every
+exchange of the longest prefix whose PUBRELs have all arrived (the one
+released now included), then writes the PUBCOMP. -/
+theorem C20_qos2_dispatch_at_pubrel (c : C) (hc : c.connected = true) (id : Nat) :
+    (step c (.peer (.pubrel id))).2 =
+      ((c.pub2in.ack Mqtt.Generated.tPUBREL id).takeWhile (fun e => terminal e.state)).flatMap
+        (fun r => match r.pub with | some pb => onPublish c pb | none => []) ++ [.wrote (.pubcomp id)] := by
+  rw [step_peer c hc]
+  simp only [peer, Queue.acked]
+  congr 1
+
+/-- a subscription to `a/#` (callback 9), an open exchange 100, then the exchange 101 with two
+repeated PUBLISHes of different content; PUBREL 101 is held back behind 100 -/
+def demoI : List Ev :=
+  [.connect (.connack false 0),
+   .api (.subscribe 1 [([97, 47, 35], 2)] 0 9),
+   .peer (.suback 1 [2]),
+   .peer (.publish { qos := 2, topic := [97, 47, 98], pktid := 101, payload := [1] }),
+   .peer (.publish { dup := true, qos := 2, topic := [97, 47, 98], pktid := 101, payload := [1] }),
+   .peer (.publish { dup := true, qos := 2, topic := [97, 47, 99], pktid := 101, payload := [2] }),
+   .peer (.pubrel 101),
+   .peer (.publish { qos := 2, topic := [97], pktid := 100, payload := [3] }),
+   .peer (.publish { qos := 2, topic := [97, 47, 100], pktid := 102, payload := [4] }),
+   .peer (.pubrel 102),
+   .peer (.pubrel 100)]
+
+example : runOuts init demoI =
+    [[.connected],
+     [.wrote (.subscribe 1 [([97, 47, 35], 2)])],
+     [],
+     [.wrote (.pubrec 101)], [.wrote (.pubrec 101)], [.wrote (.pubrec 101)],
+     [.deliver 9 { qos := 2, topic := [97, 47, 98], pktid := 101, payload := [1] }, .wrote (.pubcomp 101)],
+     [.wrote (.pubrec 100)], [.wrote (.pubrec 102)],
+     [.wrote (.pubcomp 102)],
+     [.deliver 9 { qos := 2, topic := [97], pktid := 100, payload := [3] },
+      .deliver 9 { qos := 2, topic := [97, 47, 100], pktid := 102, payload := [4] }, .wrote (.pubcomp 100)]] ∧
+    (runState init demoI).pub2in.length = 0 := by
+  decide
+
+/-! ## (g) after a completed Subscribe the callback gets every matching message exactly once
+
+`TI c.topics store`: the client's topic trie is well-formed and holds exactly
+the (callback, filter, QoS) entries of the abstract store `store`
+(`Proofs/ClientTopics.lean`, on top of the C06 refinement `Inv`); it holds of a
+fresh client (`ti_new`) and is preserved by the Subscribe / Unsubscribe
+wrappers for `good` filters (`ti_subscribeDone`, `ti_unsubscribeDone`).
+`grantedOf (topics.zip codes)` are the filters of the request the SUBACK
+grants (return code 0, 1 or 2 and a valid filter); `deliveriesTo cb outs` the
+messages handed to callback `cb`; `onPublish c p` is what an inbound PUBLISH
+`p` dispatches - immediately for QoS 0 and 1, at its PUBREL for QoS 2
+(`C20_qos2_duplicates_suppressed`). -/
+
+/-- The hypothesis `TI c.topics store` of the theorems below is met in every
+state reached from a fresh client by an admitted history (`Ok`, see
+`C12_refines_spec_partial`: no early acknowledgement, `good` valid filters,
+…): the trie is in step with an abstract store that names exactly the
+(callback, filter) pairs the reference client holds. -/
+theorem C20_trie_in_step (evs : List Ev) (hok : Ok {} evs = true) :
+    ∃ store, TI (runState init evs).topics store ∧
+      HeldRel store (evs.foldl (fun s ev => (Mqtt.Spec.Client.step s ev).1) {}).held :=
+  (run_sim evs init {} R_init hok).2.trie
+
+/-- The statement of the property: after the SUBACK of a Subscribe has been
+processed, a delivered message invokes that request's callback exactly once if
+its topic matches one of the granted filters and not at all otherwise. -/
+def C20_dispatch_full : Prop :=
+  ∀ (c : C) (store : List Sub) (r : Req) (rest : Queue) (codes : List Nat) (p : Pub),
+    c.connected = true → TI c.topics store → c.suback = r :: rest → (∀ e ∈ rest, e.id ≠ r.id) →
+    (∀ e, rest.head? = some e → terminal e.state = false) → r.topics.length = codes.length →
+    (∀ t ∈ r.topics, good t.1 = true) → (∀ e ∈ store, e.sub ≠ r.cb) →
+    good p.topic = true → validName p.topic = true → p.qos ≤ 2 →
+    (deliveriesTo r.cb (onPublish (step c (.peer (.suback r.id codes))).1 p)).length =
+      if (grantedOf (r.topics.zip codes)).any (fun f => topicMatches f p.topic) then 1 else 0
+
+/-- **C20, dispatch (the part that holds).**  Let the oldest outstanding
+Subscribe `r` of a connected client (trie in step with `store`, `r`'s callback
+not yet registered anywhere, `r`'s filters without empty or `$`-led levels) be
+acknowledged by a SUBACK with one return code per filter.  Then for every
+message `p` (valid topic name without empty or `$`-led levels, QoS <= 2) for
+which at most one of the granted filters of `r` matches - the recorded
+exclusion E9: filters of one request that overlap on this topic - the dispatch
+of `p` invokes `r`'s callback exactly once if a granted filter matches the
+topic (section 4.7 matching, `Spec.Match.topicMatches`) and not at all
+otherwise; every message handed over has `p`'s topic and payload.  For QoS 0
+and QoS 1 the dispatch happens in the step that receives the PUBLISH. -/
+theorem C20_dispatch_partial (c : C) (store : List Sub) (r : Req) (rest : Queue) (codes : List Nat) (p : Pub)
+    (hc : c.connected = true) (hti : TI c.topics store) (hq : c.suback = r :: rest)
+    (hid : ∀ e ∈ rest, e.id ≠ r.id) (hh : ∀ e, rest.head? = some e → terminal e.state = false)
+    (hlen : r.topics.length = codes.length) (hgood : ∀ t ∈ r.topics, good t.1 = true)
+    (hfresh : ∀ e ∈ store, e.sub ≠ r.cb)
+    (hgp : good p.topic = true) (hn : validName p.topic = true) (hq2 : p.qos ≤ 2)
+    (hno : ∀ f ∈ grantedOf (r.topics.zip codes), ∀ g ∈ grantedOf (r.topics.zip codes),
+      topicMatches f p.topic = true → topicMatches g p.topic = true → f = g) :
+    (deliveriesTo r.cb (onPublish (step c (.peer (.suback r.id codes))).1 p)).length =
+      (if (grantedOf (r.topics.zip codes)).any (fun f => topicMatches f p.topic) then 1 else 0) ∧
+    (∀ m ∈ deliveriesTo r.cb (onPublish (step c (.peer (.suback r.id codes))).1 p),
+      m.topic = p.topic ∧ m.payload = p.payload ∧ m.qos ≤ p.qos) ∧
+    (p.qos = 0 → (step (step c (.peer (.suback r.id codes))).1 (.peer (.publish p))).2 =
+      onPublish (step c (.peer (.suback r.id codes))).1 p) ∧
+    (p.qos = 1 → (step (step c (.peer (.suback r.id codes))).1 (.peer (.publish p))).2 =
+      .wrote (.puback p.pktid) :: onPublish (step c (.peer (.suback r.id codes))).1 p) := by
+  have hc' : (step c (.peer (.suback r.id codes))).1.connected = true := step_connected c _ hc
+  rw [step_peer _ hc']
+  rw [step_peer c hc, peer_suback_head c r rest hq hid hh codes]
+  have hti' := ti_subscribeDone { c with suback := rest } { r with state := Mqtt.Generated.tSUBACK, codes := codes }
+    store hgood hti
+  have hl : (r.topics.length != codes.length) = false := by simp [hlen]
+  simp only [hl, Bool.false_eq_true, ↓reduceIte] at hti'
+  obtain ⟨hcount, hcontent⟩ := deliveries_count _ _ hti' p hgp hn hq2 r.cb
+  refine ⟨?_, hcontent, ?_, ?_⟩
+  · rw [hcount]
+    have hgz : ∀ tc ∈ r.topics.zip codes, good tc.1.1 = true :=
+      fun tc htc => hgood tc.1 (mem_zip_fst _ _ _ htc)
+    have hmem : ∀ f, f ∈ heldBy r.cb (grantStore r.cb store (r.topics.zip codes)) ↔
+        f ∈ grantedOf (r.topics.zip codes) := by
+      intro f
+      rw [heldBy_grantStore r.cb _ hgz f store]
+      have : f ∉ heldBy r.cb store := by
+        rw [mem_heldBy]
+        rintro ⟨e, he, hs, _⟩
+        exact hfresh e he hs
+      simp [this]
+    rw [length_filter_unique _ _ (heldBy_nodup _ _ hti'.nodup)
+      (fun a ha b hb => hno a ((hmem a).mp ha) b ((hmem b).mp hb))]
+    have : (heldBy r.cb (grantStore r.cb store (r.topics.zip codes))).any (fun f => topicMatches f p.topic) =
+        (grantedOf (r.topics.zip codes)).any (fun f => topicMatches f p.topic) := by
+      rw [Bool.eq_iff_iff, List.any_eq_true, List.any_eq_true]
+      exact ⟨fun ⟨f, hf, hm⟩ => ⟨f, (hmem f).mp hf, hm⟩, fun ⟨f, hf, hm⟩ => ⟨f, (hmem f).mpr hf, hm⟩⟩
+    rw [this]
+  · intro h0
+    simp [peer, h0]
+  · intro h1
+    simp [peer, h1]
+
+/-- … and for QoS 2 at its PUBREL: under the hypotheses of
+`C20_dispatch_partial`, a whole inbound QoS 2 exchange after the SUBACK - the
+PUBLISH, any number of repeated PUBLISHes with its identifier, the PUBREL, with
+no other inbound exchange open - invokes the request's callback, over all its
+steps together, exactly once if a granted filter matches and not at all
+otherwise. -/
+theorem C20_dispatch_qos2_partial (c : C) (store : List Sub) (r : Req) (rest : Queue) (codes : List Nat) (p : Pub)
+    (dups : List Pub)
+    (hc : c.connected = true) (hti : TI c.topics store) (hq : c.suback = r :: rest)
+    (hid : ∀ e ∈ rest, e.id ≠ r.id) (hh : ∀ e, rest.head? = some e → terminal e.state = false)
+    (hlen : r.topics.length = codes.length) (hgood : ∀ t ∈ r.topics, good t.1 = true)
+    (hfresh : ∀ e ∈ store, e.sub ≠ r.cb)
+    (hgp : good p.topic = true) (hn : validName p.topic = true) (hq2 : p.qos = 2)
+    (hin : c.pub2in = []) (hd : ∀ d ∈ dups, d.qos = 2 ∧ d.pktid = p.pktid)
+    (hno : ∀ f ∈ grantedOf (r.topics.zip codes), ∀ g ∈ grantedOf (r.topics.zip codes),
+      topicMatches f p.topic = true → topicMatches g p.topic = true → f = g) :
+    (deliveriesTo r.cb (runOuts (step c (.peer (.suback r.id codes))).1
+      (.peer (.publish p) :: dups.map (fun d => Ev.peer (.publish d)) ++ [.peer (.pubrel p.pktid)])).flatten).length =
+      (if (grantedOf (r.topics.zip codes)).any (fun f => topicMatches f p.topic) then 1 else 0) := by
+  have hc' : (step c (.peer (.suback r.id codes))).1.connected = true := step_connected c _ hc
+  have hin' : (step c (.peer (.suback r.id codes))).1.pub2in = [] := by
+    rw [step_peer c hc]
+    simp only [peer]
+    rw [(foldDone_frame subscribeDone subscribeDone_frame _ _).pub2in]
+    exact hin
+  rw [(C20_qos2_duplicates_suppressed _ hc' hin' p hq2 dups hd).1, deliveriesTo_exchange]
+  exact (C20_dispatch_partial c store r rest codes p hc hti hq hid hh hlen hgood hfresh hgp hn (by omega) hno).1
+
+/-- The exclusion in its static form: if the granted filters of the request are
+pairwise non-overlapping (`nonOverlapping`, a decidable check on the filters
+alone: two filters overlap when, level by level, they can agree on some name;
+`overlap_sound`), the conclusion of `C20_dispatch_partial` holds for *every*
+message. -/
+theorem C20_dispatch_nonoverlapping (c : C) (store : List Sub) (r : Req) (rest : Queue) (codes : List Nat)
+    (hc : c.connected = true) (hti : TI c.topics store) (hq : c.suback = r :: rest)
+    (hid : ∀ e ∈ rest, e.id ≠ r.id) (hh : ∀ e, rest.head? = some e → terminal e.state = false)
+    (hlen : r.topics.length = codes.length) (hgood : ∀ t ∈ r.topics, good t.1 = true)
+    (hfresh : ∀ e ∈ store, e.sub ≠ r.cb)
+    (hno : nonOverlapping (grantedOf (r.topics.zip codes)) = true)
+    (p : Pub) (hgp : good p.topic = true) (hn : validName p.topic = true) (hq2 : p.qos ≤ 2) :
+    (deliveriesTo r.cb (onPublish (step c (.peer (.suback r.id codes))).1 p)).length =
+      (if (grantedOf (r.topics.zip codes)).any (fun f => topicMatches f p.topic) then 1 else 0) :=
+  (C20_dispatch_partial c store r rest codes p hc hti hq hid hh hlen hgood hfresh hgp hn hq2
+    (nonOverlapping_unique _ hno p.topic)).1
+
+example : nonOverlapping [[97, 47, 43], [98], [99, 47, 35]] = true ∧
+    nonOverlapping [[97, 47, 43], [97, 47, 98]] = false ∧ overlap [97, 47, 35] [97] = true ∧
+    overlap [43, 47, 98] [97, 47, 43] = true ∧ overlap [97, 47, 98] [97, 47, 99] = false := by decide
+
+/-- It is false of the code as it is (finding E9): a request with the filters
+`a/+` and `a/b` registers its callback at two trie nodes; one delivered `a/b`
+invokes it twice. -/
+theorem C20_dispatch_counterexample : ¬ C20_dispatch_full := by
+  intro h
+  have := h (runState init [.connect (.connack false 0), .api (.subscribe 1 [([97, 47, 43], 1), ([97, 47, 98], 1)] 5 9)])
+    [] { id := 1, tag := 5, topics := [([97, 47, 43], 1), ([97, 47, 98], 1)], cb := 9 } [] [1, 1]
+    { qos := 0, topic := [97, 47, 98], payload := [7] }
+    (by decide) ti_new rfl (by simp) (by simp) (by decide) (by decide) (by simp) (by decide) (by decide)
+    (by decide)
+  exact absurd this (by decide)
+
+/-- a second subscriber's request (callback 9: `a/+` at QoS 1, `b`, and `c/#` refused by the
+server) completes on a client that already holds callback 3 for `#`; messages on `a/b`, `b`, `c/d` -/
+def demoG : List Ev :=
+  [.connect (.connack false 0),
+   .api (.subscribe 1 [([35], 0)] 0 3),
+   .peer (.suback 1 [0]),
+   .api (.subscribe 2 [([97, 47, 43], 1), ([98], 2), ([99, 47, 35], 1)] 5 9),
+   .peer (.suback 2 [1, 2, 128]),
+   .peer (.publish { qos := 1, topic := [97, 47, 98], pktid := 100, payload := [1] }),
+   .peer (.publish { qos := 0, topic := [98], payload := [2] }),
+   .peer (.publish { qos := 0, topic := [99, 47, 100], payload := [3] })]
+
+example : (runOuts init demoG).drop 4 =
+    [[.complete 5 true],
+     [.wrote (.puback 100),
+      .deliver 3 { qos := 0, topic := [97, 47, 98], pktid := 100, payload := [1] },
+      .deliver 9 { qos := 1, topic := [97, 47, 98], pktid := 100, payload := [1] }],
+     [.deliver 3 { qos := 0, topic := [98], payload := [2] }, .deliver 9 { qos := 0, topic := [98], payload := [2] }],
+     [.deliver 3 { qos := 0, topic := [99, 47, 100], payload := [3] }]] ∧
+    grantedOf ([(([97, 47, 43] : Bytes), 1), ([98], 2), ([99, 47, 35], 1)].zip [1, 2, 128]) = [[97, 47, 43], [98]] := by
+  decide
+
+/-- the hypotheses of `C20_dispatch_partial` are met: the request of `demoG` on a fresh connected
+client, message `a/b` (one granted filter matches) and message `c/d` (only the refused filter would) -/
+example :
+    let c := runState init [.connect (.connack false 0),
+      .api (.subscribe 2 [([97, 47, 43], 1), ([98], 2), ([99, 47, 35], 1)] 5 9)]
+    (deliveriesTo 9 (onPublish (step c (.peer (.suback 2 [1, 2, 128]))).1
+      { qos := 1, topic := [97, 47, 98], pktid := 100, payload := [1] })).length = 1 ∧
+    (deliveriesTo 9 (onPublish (step c (.peer (.suback 2 [1, 2, 128]))).1
+      { qos := 0, topic := [99, 47, 100], payload := [3] })).length = 0 := by
+  intro c
+  have h1 := (C20_dispatch_partial c [] { id := 2, tag := 5, topics := [([97, 47, 43], 1), ([98], 2), ([99, 47, 35], 1)], cb := 9 }
+    [] [1, 2, 128] { qos := 1, topic := [97, 47, 98], pktid := 100, payload := [1] }
+    (by decide) ti_new rfl (by simp) (by simp) (by decide) (by decide) (by simp) (by decide) (by decide) (by decide)
+    (by decide)).1
+  have h2 := (C20_dispatch_partial c [] { id := 2, tag := 5, topics := [([97, 47, 43], 1), ([98], 2), ([99, 47, 35], 1)], cb := 9 }
+    [] [1, 2, 128] { qos := 0, topic := [99, 47, 100], payload := [3] }
+    (by decide) ti_new rfl (by simp) (by simp) (by decide) (by decide) (by simp) (by decide) (by decide) (by decide)
+    (by decide)).1
+  exact ⟨h1, h2⟩
+
+/-! ## (h) after a completed Unsubscribe the listed filters deliver nothing -/
+
+/-- **C20, Unsubscribe.**  Let the oldest outstanding Unsubscribe `r` of a
+connected client (trie in step with `store`, `r`'s filters without empty or
+`$`-led levels) be acknowledged by its UNSUBACK.  Afterwards the trie holds
+exactly the entries of `store` whose filter is not listed in `r` - every
+callback registered under exactly a listed filter is removed
+(`C06_sremove_refines`, "remove all" mode), entries under other filters are
+untouched - and for every later message `p` and every callback `cb`, `cb` is
+invoked once per *unlisted* filter it is still held under that matches `p`.
+In particular a callback held only under listed filters is never invoked
+again. -/
+theorem C20_unsubscribe_stops (c : C) (store : List Sub) (r : Req) (rest : Queue) (p : Pub)
+    (hc : c.connected = true) (hti : TI c.topics store) (hq : c.unsuback = r :: rest)
+    (hid : ∀ e ∈ rest, e.id ≠ r.id) (hh : ∀ e, rest.head? = some e → terminal e.state = false)
+    (hgood : ∀ t ∈ r.topics, good t.1 = true)
+    (hgp : good p.topic = true) (hn : validName p.topic = true) (hq2 : p.qos ≤ 2) :
+    TI (step c (.peer (.unsuback r.id))).1.topics
+      (store.filter (fun e => !(r.topics.map (·.1)).contains e.filter)) ∧
+    (∀ cb, (deliveriesTo cb (onPublish (step c (.peer (.unsuback r.id))).1 p)).length =
+      ((heldBy cb store).filter (fun f => !(r.topics.map (·.1)).contains f && topicMatches f p.topic)).length) ∧
+    (∀ cb, (∀ f ∈ heldBy cb store, f ∈ r.topics.map (·.1)) →
+      deliveriesTo cb (onPublish (step c (.peer (.unsuback r.id))).1 p) = []) := by
+  rw [step_peer c hc, peer_unsuback_head c r rest hq hid hh]
+  have hti' := ti_unsubscribeDone { c with unsuback := rest }
+    { r with state := Mqtt.Generated.tUNSUBACK, codes := [] } store hgood hti
+  simp only [dropStore_eq] at hti'
+  have hcount : ∀ cb, (deliveriesTo cb (onPublish (unsubscribeDone { c with unsuback := rest }
+      { r with state := Mqtt.Generated.tUNSUBACK, codes := [] }).1 p)).length =
+      ((heldBy cb store).filter (fun f => !(r.topics.map (·.1)).contains f && topicMatches f p.topic)).length := by
+    intro cb
+    rw [(deliveries_count _ _ hti' p hgp hn hq2 cb).1,
+      heldBy_filter cb store (fun f => !(r.topics.map (·.1)).contains f), List.filter_filter]
+    congr 1
+    apply List.filter_congr
+    intro f _
+    exact Bool.and_comm _ _
+  refine ⟨hti', hcount, ?_⟩
+  intro cb hall
+  have h0 := hcount cb
+  have : (heldBy cb store).filter (fun f => !(r.topics.map (·.1)).contains f && topicMatches f p.topic) = [] := by
+    rw [List.filter_eq_nil_iff]
+    intro f hf
+    have hc1 : (r.topics.map (·.1)).contains f = true := List.contains_iff_mem.mpr (hall f hf)
+    rw [hc1]; simp
+  rw [this] at h0
+  exact List.length_eq_zero_iff.mp h0
+
+/-- callbacks 3 (`a/+`, `b`) and 4 (`a/+`); Unsubscribe `a/+`; afterwards `a/b` reaches nobody,
+`b` still reaches callback 3 -/
+def demoH : List Ev :=
+  [.connect (.connack false 0),
+   .api (.subscribe 1 [([97, 47, 43], 1), ([98], 0)] 0 3),
+   .peer (.suback 1 [1, 0]),
+   .api (.subscribe 2 [([97, 47, 43], 0)] 0 4),
+   .peer (.suback 2 [0]),
+   .peer (.publish { qos := 0, topic := [97, 47, 98], payload := [1] }),
+   .api (.unsubscribe 3 [[97, 47, 43]] 8),
+   .peer (.publish { qos := 0, topic := [97, 47, 98], payload := [2] }),
+   .peer (.unsuback 3),
+   .peer (.publish { qos := 0, topic := [97, 47, 98], payload := [3] }),
+   .peer (.publish { qos := 0, topic := [98], payload := [4] })]
+
+example : (runOuts init demoH).drop 5 =
+    [[.deliver 3 { qos := 0, topic := [97, 47, 98], payload := [1] },
+      .deliver 4 { qos := 0, topic := [97, 47, 98], payload := [1] }],
+     [.wrote (.unsubscribe 3 [[97, 47, 43]])],
+     [.deliver 3 { qos := 0, topic := [97, 47, 98], payload := [2] },
+      .deliver 4 { qos := 0, topic := [97, 47, 98], payload := [2] }],
+     [.complete 8 false],
+     [],
+     [.deliver 3 { qos := 0, topic := [98], payload := [4] }]] := by
+  decide
+
+/-- the hypotheses of `C20_unsubscribe_stops` are met (Unsubscribe of a filter on a fresh client) -/
+example :
+    let c := runState init [.connect (.connack false 0), .api (.unsubscribe 3 [[97, 47, 43], [98]] 8)]
+    ∀ cb, deliveriesTo cb (onPublish (step c (.peer (.unsuback 3))).1
+      { qos := 0, topic := [97, 47, 98], payload := [3] }) = [] := by
+  intro c cb
+  exact (C20_unsubscribe_stops c [] { id := 3, tag := 8, topics := [([97, 47, 43], 0), ([98], 0)] } []
+    { qos := 0, topic := [97, 47, 98], payload := [3] } (by decide) ti_new rfl (by simp) (by simp) (by decide)
+    (by decide) (by decide) (by decide)).2.2 cb (by simp [heldBy])
+
 end Mqtt.Properties.C20
